@@ -46,6 +46,9 @@ pub enum Op {
     /// drop the cache and build a new one with the same configuration on the same directories: the memory
     /// layers start empty, the disk layers keep what they held
     Reopen,
+    /// a call that names a layer which does not exist (index = number of layers, or usize::MAX): which % 3 = 0
+    /// get_from_layer, 1 promote(from = bad), 2 promote(to = bad). It must return and not panic.
+    BadLayer { k: usize, which: u8, max: bool },
 }
 
 #[derive(Clone, Debug, Serialize, Deserialize)]
@@ -233,7 +236,7 @@ impl Scenario for Layers {
         "exploration"
     }
     fn rule(&self) -> &'static str {
-        "Seeded histories (2-25 ops) over put/put_with_ttl/put_to_layer/get/get_from_layer/promote/remove/clear/batch_get/batch_put/put_with_validation/get_with_validation/contains/size/advance on the real MultiLayerCacheImpl with 2-3 layers ([memory(max 1-3 entries), memory|disk, disk?]), each promotion strategy, Md5ValidationHooks on or off, interleaved with corruption or deletion of the disk layers' files, and in one run in six (with a disk layer) ONE reopen (drop the cache, build it again on the same directories: memory layers empty, disk layers as they were); the same key is hit repeatedly (re-get of a key living only in a lower layer is favoured). Oracle: per key the latest put value and what each layer may hold; a get returns the latest value if a layer certainly holds it, nothing otherwise, never an older one; nothing from any layer after remove/clear; validated reads return only bytes hashing to the key and drop detected corruption from all layers; every call returns (virtual-time and real-time watchdogs). Non-trivial = >= 2 state-changing ops; distinct = hash of (config, ops, observed results)."
+        "Seeded histories (2-25 ops) over put/put_with_ttl/put_to_layer/get/get_from_layer/promote/remove/clear/batch_get/batch_put/put_with_validation/get_with_validation/contains/size/advance on the real MultiLayerCacheImpl with 2-3 layers ([memory(max 1-3 entries), memory|disk, disk?]), each promotion strategy, Md5ValidationHooks on or off, interleaved with corruption or deletion of the disk layers' files, now and then a call naming a layer that does not exist, a promotion pointing the wrong way, an empty batch or a batch of 64, and in one run in six (with a disk layer) ONE reopen (drop the cache, build it again on the same directories: memory layers empty, disk layers as they were); the same key is hit repeatedly (re-get of a key living only in a lower layer is favoured). Oracle: per key the latest put value and what each layer may hold; a get returns the latest value if a layer certainly holds it, nothing otherwise, never an older one; nothing from any layer after remove/clear; validated reads return only bytes hashing to the key and drop detected corruption from all layers; every call returns (virtual-time and real-time watchdogs). Non-trivial = >= 2 state-changing ops; distinct = hash of (config, ops, observed results)."
     }
     fn assumptions(&self) -> Vec<&'static str> {
         vec![
@@ -338,6 +341,25 @@ impl Scenario for Layers {
                     ops.push(if rng.chance(70, 100) { Op::GetValidated(k) } else { Op::Get(k) });
                 }
             }
+        }
+        // drawn after the history: calls with a layer index that does not exist, a promotion that points the wrong
+        // way (from <= to), an empty batch, a batch of 64
+        if rng.chance(1, 10) {
+            let at = rng.usize_below(ops.len() + 1);
+            ops.insert(at, Op::BadLayer { k: rng.usize_below(nkeys), which: rng.below(4) as u8, max: rng.chance(1, 2) });
+        }
+        if rng.chance(1, 10) {
+            let at = rng.usize_below(ops.len() + 1);
+            let to = rng.usize_below(nl);
+            ops.insert(at, Op::Promote { k: rng.usize_below(nkeys), from: rng.usize_below(to + 1), to });
+        }
+        if rng.chance(1, 12) {
+            let at = rng.usize_below(ops.len() + 1);
+            ops.insert(at, match rng.below(3) {
+                0 => Op::BatchGet(vec![]),
+                1 => Op::BatchPut(vec![]),
+                _ => Op::BatchGet((0..64).map(|_| rng.usize_below(nkeys)).collect()),
+            });
         }
         // one run in six (with a disk layer) reopens the cache once somewhere in the history; drawn last so
         // that the rest of the case does not depend on it
@@ -872,6 +894,20 @@ async fn run(case: &Case, ctx: &mut Ctx) -> Option<Violation> {
                         viol!("C12.contains", "answer_after_remove", ",via=contains", format!("op #{i} contains(k{k}) = true although no layer can hold the key (removed, cleared, expired or never put)"));
                     }
                 }
+            }
+            Op::BadLayer { k, which, max } => {
+                let k = *k % nk;
+                let bad = if *max { usize::MAX } else { nl };
+                // (reads and promotions only: what a WRITE to a layer that does not exist should do - refuse, or store
+                // somewhere - is not something the property fixes, and a store would have to be modelled)
+                let what = match which % 3 {
+                    0 => call!(i, "get_from_layer", ml.get_from_layer(&keys[k], bad)).map(|o| o.is_some()),
+                    1 => call!(i, "promote", ml.promote(&keys[k], bad, 0)),
+                    _ => call!(i, "promote", ml.promote(&keys[k], nl - 1, bad)),
+                };
+                // judged: the call returned (virtual-time and real-time guards) and did not panic; whatever it said
+                ctx.event(|| json!({"k":"op","op":"bad_layer_index","which":which,"layer":bad,"ret":what.as_ref().map_err(|e| e.to_string())}));
+                ctx.count("calls_with_a_layer_index_that_does_not_exist");
             }
             Op::Reopen => {
                 drop(ml);
